@@ -50,10 +50,11 @@ Definition required_visible_b (lk : list pstr -> option val) (c : gwclass) : boo
 
 Section Check.
 Variable orc : avop -> pstr -> pstr -> option bool.
+Variable cont : pstr -> bool.
 
 Definition construct_case (c : gwclass) (by_keyword : bool) (ch : list choice) : res heap :=
   let call := call_of c by_keyword ch in
-  construct orc classes (class_name c) (fst call) (snd call).
+  construct orc cont classes (class_name c) (fst call) (snd call).
 
 Definition check_case (c : gwclass) (by_keyword : bool) (ch : list choice) : bool :=
   match construct_case c by_keyword ch with
